@@ -226,6 +226,7 @@ func runC17(c *kit.Ctx) {
 	c.StartRule("R3", "every cycle of every retry loop waits, is bounded, or is a tabled NotServingRegionError cycle", 6)
 	retryLoopsWait(c)
 	exceptionTableOracle(c)
+	probeClassifiesOutcome(c)
 
 	// the connection-level-error cap of SendBatch looks at this round's retry list:
 	// nothing may empty or replace that list between the round's wait and the test
@@ -437,6 +438,11 @@ func runC17(c *kit.Ctx) {
 			}
 			c.Check(left, fn, "backoff-error-exits", call.Pos(), "a failed wait (cancellation) leaves the loop", "the error of the back-off wait is ignored or the loop continues after cancellation")
 		}
+	}
+
+	// ---- R5 ---------------------------------------------------------------
+	if !c.Frozen {
+		embed(c, "R5", "the retry decision of a batch reads the results of the very calls it retries: result slots are read and written by the original position of the call (the positional rules of C07, run as one rule here)", 20, runC07)
 	}
 }
 
